@@ -7,7 +7,7 @@ G = None
 def register(progs, g):
     global G
     G = g
-    progs.update({'C17': prog_C17, 'C03': prog_C03, 'C16': prog_C16, 'C01': prog_C01, 'C02': prog_C02, 'C08': prog_C08, 'C09': prog_C09, 'C10': prog_C10, 'C15': prog_C15})
+    progs.update({'C17': prog_C17, 'C03': prog_C03, 'C16': prog_C16, 'C01': prog_C01, 'C02': prog_C02, 'C08': prog_C08, 'C09': prog_C09, 'C10': prog_C10, 'C15': prog_C15, 'C18': prog_C18})
 
 
 def plain_diff(ops_path, a_path, b_path, limit=40):
@@ -36,7 +36,7 @@ def run_linediff(ctx, name, lean_mode, timeout=7200):
         return r
     r, d = G['cached'](ctx, name + '-go', go)
     if r['rc'] != 0:
-        ctx.broken.append(dict(kind='tie', what='%s harness crashed on the real code' % name, detail=r['out']))
+        crash_report(ctx, name, r, d)
         return None
     res = dict(stats=r['stats'], dir=d, diffs=[], ndiffs=0, nops=0, lean_ok=False)
     if ctx.driver_ok:
@@ -51,6 +51,19 @@ def run_linediff(ctx, name, lean_mode, timeout=7200):
         diffs, total, n = plain_diff(os.path.join(d, 'ops.txt'), os.path.join(d, 'go_obs.txt'), lean_obs)
         res.update(diffs=diffs, ndiffs=total, nops=n, lean_ok=True)
     return res
+
+
+def crash_report(ctx, driver, r, d):
+    """the harness process died: a fault no recover() catches. The input it was handling is in current_input.txt"""
+    cur = os.path.join(d, 'current_input.txt')
+    what = ''
+    if os.path.exists(cur):
+        what = open(cur, errors='replace').read()
+    fatal = [l for l in r['out'].splitlines() if l.startswith('fatal error') or l.startswith('panic:') or 'out of memory' in l or 'stack overflow' in l]
+    ctx.broken.append(dict(kind='tie', what='%s harness crashed on the real code' % driver, detail=(' | '.join(fatal[:3]) + ' :: ' + r['out'][-1500:])))
+    if what and ctx.pid == 'C18':
+        ctx.violations.append(dict(kind='impl-counterexample', driver=driver,
+                                   what='C18 never_panics: process-terminating fault (%s) while the real code handled: %s' % ('; '.join(fatal[:2]) or 'process died', what[:1500])))
 
 
 BASE_TRUSTED = ['Lean 4.33.0 kernel; axioms allowed: propext, Classical.choice, Quot.sound (audited per theorem with #print axioms; `decide +kernel` is kernel evaluation, no native code)']
@@ -192,3 +205,54 @@ def prog_C15(ctx):
 
 def prog_C08(ctx):
     generic(ctx, ['Dc4bcVerif.Props.C08'], 'nodediff', 'node', ['C08'], NODE_TRUSTED, NODE_RULE, cov_from_stats=node_cov)
+
+
+def monitor_only(ctx, driver, monitor_prefixes, cov_key, timeout=7200):
+    """a driver that runs the real code under monitors only (no model stream to compare)"""
+    VERIF = G['VERIF']
+    if not G['build_harness'](ctx):
+        return None
+
+    def go(d):
+        t = time.time()
+        rc, out = G['sh']([os.path.join(VERIF, 'bin', 'harness'), driver, d, str(ctx.seed), ctx.tier], timeout=timeout)
+        r = dict(rc=rc, out=out[-3000:], wall=time.time() - t)
+        if rc == 0:
+            r['stats'] = json.load(open(os.path.join(d, 'stats.json')))
+        return r
+    r, d = G['cached'](ctx, driver + '-go', go)
+    if r['rc'] != 0:
+        crash_report(ctx, driver, r, d)
+        return None
+    st = r['stats']
+    for mline in (st.get('Monitors') or []):
+        if any(mline.startswith(p + ' ') for p in monitor_prefixes) or mline.startswith('harness:'):
+            ctx.violations.append(dict(kind='impl-counterexample', driver=driver, what=mline))
+    ctx.cov[cov_key] = {k: v for k, v in st.items() if k not in ('Monitors', 'Samples')}
+    return st
+
+
+def prog_C18(ctx):
+    node_tr = list(NODE_TRUSTED)
+    generic(ctx, ['Dc4bcVerif.Props.C18'], 'nodediff', 'node', ['C18'], node_tr, NODE_RULE, cov_from_stats=node_cov)
+    ev = ctx.cov.get('evaluations', 0)
+    res = run_linediff(ctx, 'sszdiff', 'ssz')
+    if res is not None:
+        st = res['stats']
+        for mline in (st.get('Monitors') or []):
+            if mline.startswith('C18 '):
+                ctx.violations.append(dict(kind='impl-counterexample', driver='sszdiff', what=mline))
+        rel = [d for d in res['diffs'] if d['op'].startswith('tasks') or d['op'].startswith('baked')]
+        if res['lean_ok'] and rel:
+            ctx.broken.append(dict(kind='correspondence', what='sszdiff: TasksToMessages / ReconstructBakedMessage and the Lean model disagree on %d operations' % len(rel),
+                                   detail='', diffs=rel[:10], script=os.path.join(res['dir'], 'ops.txt')))
+        ctx.cov['expansion_layer'] = dict(task_lists=st['Tasks'], baked_positions=st['Baked'])
+        ev += st['Tasks'] + st['Baked']
+    air = monitor_only(ctx, 'airdiff', ['C18'], 'airgapped_fault_injection')
+    if air:
+        ev += air['Mutations']
+        ctx.cov['distinct_nontrivial'] = ctx.cov.get('distinct_nontrivial', 0) + len(air.get('MutationHist') or {})
+    ctx.cov['evaluations'] = ev
+    ctx.cov['trusted_base'] += ['airgapped machine: no Lean model of the handlers (kyber DKG/VSS, ECIES, BLS); covered by fault injection on the real machine only: every operation a participant receives in a real ceremony is fed to a clone in structure-aware mutated forms (field deletion, type confusion, negative/huge integers, empty/oversized arrays, short identifiers, unknown types, truncated/bit-flipped/random/zero byte strings incl. nested JSON, reversed/huge signing ranges) behind a recover(); a refused operation must leave the database byte-identical',
+                                'byte-level coverage-guided fuzzing of the decoders is not part of this check (encoding/json is trusted)']
+    ctx.cov['rule'] += '; sszdiff: reversed/negative/huge ranges; airdiff: per operation of a ceremony a sample (quick) or all (thorough) of its mutations'
